@@ -457,4 +457,442 @@ theorem applyOneDeviate_eq_staged (opts : Opts) (ms : Stmt) (kind : String) (spe
   unfold applyOneDeviate staged kindOf
   simp only [e1, e2, e3, e4, h1, h2, h3, h4, Bool.false_or, Bool.false_eq_true, if_false]
 
+
+/-! ### the abstraction: an entry's §7.20.3 properties, a deviate entry's statement -/
+
+def triOpt : Tri → Option Bool
+  | .unset => none | .true_ => some true | .false_ => some false
+
+/-- `MaxUint64` is how the schema tree writes "unbounded". -/
+def maxOpt (v : Nat) : Option Nat := if v = maxU64 then none else some v
+
+/-- The empty string is how the schema tree writes "no units". -/
+def strOpt (s : String) : Option String := if s = "" then none else some s
+
+/-- The properties of a schema tree node, as RFC 7950 §7.20.3 sees them. -/
+def propsOf (e : Entry) : NodeProps :=
+  { listLike := listLike e, leafList := e.isLeafList,
+    config := triOpt e.d.config, mandatory := triOpt e.d.mandatory, default := e.d.default,
+    min := nodeMin e, max := maxOpt (nodeMax e),
+    units := strOpt e.d.units,
+    type := e.d.type.map (·.dump) }
+
+/-- The deviate statement a deviate entry (`toEntry` of the statement) stands for. -/
+def stmtOf (kind : String) (spec : Entry) : DeviateStmt :=
+  { kind := kindOf kind, config := triOpt spec.d.config, mandatory := triOpt spec.d.mandatory,
+    default := spec.d.default,
+    min := if spec.d.hasMin then some (specMin spec.d) else none,
+    max := if spec.d.hasMax then some (maxOpt (specMax spec.d)) else none,
+    units := strOpt spec.d.units,
+    type := spec.d.type.map (·.dump) }
+
+theorem listLike_isSome {n : Entry} (h : listLike n = true) : n.d.listAttr.isSome = true := by
+  cases n with
+  | mk d c i o =>
+    simp only [listLike, Entry.isList, Entry.isLeafList, Entry.d, Bool.or_eq_true, Bool.and_eq_true] at h ⊢
+    rcases h with h | h <;> exact h.2
+
+/-- A data update that keeps `hasDir`, `kind` and the presence of list attributes keeps what kind of
+node it is. -/
+theorem flags_withD (n : Entry) (g : EData → EData) (h1 : (g n.d).hasDir = n.d.hasDir) (h2 : (g n.d).kind = n.d.kind)
+    (h3 : (g n.d).listAttr.isSome = n.d.listAttr.isSome) :
+    listLike (n.withD g) = listLike n ∧ (n.withD g).isLeafList = n.isLeafList := by
+  cases n with
+  | mk d c i o =>
+    simp only [Entry.d] at h1 h2 h3
+    simp [listLike, Entry.isList, Entry.isLeafList, Entry.withD, Entry.d, h1, h2, h3]
+
+theorem tri_bne1 : (Tri.unset != Tri.unset) = false := rfl
+theorem tri_bne2 : (Tri.true_ != Tri.unset) = true := rfl
+theorem tri_bne3 : (Tri.false_ != Tri.unset) = true := rfl
+
+theorem propsOf_stCfg (sd : EData) (n : Entry) :
+    propsOf (stCfg sd n) = { propsOf n with config := (triOpt sd.config).or (propsOf n).config } := by
+  cases n with
+  | mk d c i o =>
+    cases hc : sd.config <;>
+      simp [stCfg, hc, propsOf, triOpt, Entry.withD, Entry.d, listLike, Entry.isList, Entry.isLeafList, nodeMin, nodeMax,
+        tri_bne1, tri_bne2, tri_bne3]
+
+
+theorem propsOf_stMand (sd : EData) (n : Entry) :
+    propsOf (stMand sd n) = { propsOf n with mandatory := (triOpt sd.mandatory).or (propsOf n).mandatory } := by
+  cases n with
+  | mk d c i o =>
+    cases hc : sd.mandatory <;>
+      simp [stMand, hc, propsOf, triOpt, Entry.withD, Entry.d, listLike, Entry.isList, Entry.isLeafList, nodeMin, nodeMax,
+        tri_bne1, tri_bne2, tri_bne3]
+
+theorem propsOf_stCfgDel (sd : EData) (n : Entry) :
+    propsOf (stCfgDel sd n) = { propsOf n with config := if (triOpt sd.config).isSome then none else (propsOf n).config } := by
+  cases n with
+  | mk d c i o =>
+    cases hc : sd.config <;>
+      simp [stCfgDel, hc, propsOf, triOpt, Entry.withD, Entry.d, listLike, Entry.isList, Entry.isLeafList, nodeMin, nodeMax,
+        tri_bne1, tri_bne2, tri_bne3]
+
+theorem propsOf_stMandDel (sd : EData) (n : Entry) :
+    propsOf (stMandDel sd n) =
+      { propsOf n with mandatory := if (triOpt sd.mandatory).isSome then none else (propsOf n).mandatory } := by
+  cases n with
+  | mk d c i o =>
+    cases hc : sd.mandatory <;>
+      simp [stMandDel, hc, propsOf, triOpt, Entry.withD, Entry.d, listLike, Entry.isList, Entry.isLeafList, nodeMin, nodeMax,
+        tri_bne1, tri_bne2, tri_bne3]
+
+theorem strOpt_empty : strOpt "" = none := rfl
+theorem strOpt_ne {s : String} (h : s ≠ "") : strOpt s = some s := by simp [strOpt, h]
+
+theorem propsOf_stUnits (sd : EData) (n : Entry) :
+    propsOf (stUnits sd n) = { propsOf n with units := (strOpt sd.units).or (propsOf n).units } := by
+  cases n with
+  | mk d c i o =>
+    by_cases hu : sd.units = ""
+    · simp [stUnits, hu, propsOf, strOpt_empty]
+    · simp [stUnits, hu, propsOf, strOpt_ne hu, Entry.withD, Entry.d, listLike, Entry.isList, Entry.isLeafList, nodeMin, nodeMax]
+
+theorem propsOf_stType (sd : EData) (n : Entry) :
+    propsOf (stType sd n) = { propsOf n with type := (sd.type.map (·.dump)).or (propsOf n).type } := by
+  cases n with
+  | mk d c i o =>
+    cases ht : sd.type <;>
+      simp [stType, ht, propsOf, Entry.withD, Entry.d, listLike, Entry.isList, Entry.isLeafList, nodeMin, nodeMax]
+
+theorem propsOf_setMin (n : Entry) (v : Nat) (h : listLike n = true) :
+    propsOf (setMin n v) = { propsOf n with min := v } := by
+  have hs := listLike_isSome h
+  cases n with
+  | mk d c i o =>
+    simp only [Entry.d] at hs
+    obtain ⟨la, hla⟩ := Option.isSome_iff_exists.mp hs
+    simp [setMin, propsOf, Entry.withD, Entry.d, listLike, Entry.isList, Entry.isLeafList, nodeMin, nodeMax, hla]
+
+theorem propsOf_setMax (n : Entry) (v : Nat) (h : listLike n = true) :
+    propsOf (setMax n v) = { propsOf n with max := maxOpt v } := by
+  have hs := listLike_isSome h
+  cases n with
+  | mk d c i o =>
+    simp only [Entry.d] at hs
+    obtain ⟨la, hla⟩ := Option.isSome_iff_exists.mp hs
+    simp [setMax, propsOf, Entry.withD, Entry.d, listLike, Entry.isList, Entry.isLeafList, nodeMin, nodeMax, hla]
+
+theorem propsOf_setDefault (n : Entry) (l : List String) :
+    propsOf (n.withD fun d => { d with default := l }) = { propsOf n with default := l } := by
+  cases n with
+  | mk d c i o => simp [propsOf, Entry.withD, Entry.d, listLike, Entry.isList, Entry.isLeafList, nodeMin, nodeMax]
+
+theorem propsOf_appendDefault (n : Entry) (l : List String) :
+    propsOf (n.withD fun d => { d with default := d.default ++ l }) = { propsOf n with default := (propsOf n).default ++ l } := by
+  cases n with
+  | mk d c i o => simp [propsOf, Entry.withD, Entry.d, listLike, Entry.isList, Entry.isLeafList, nodeMin, nodeMax]
+
+/-- §7.20.3.2 for `default` under add / replace. -/
+def defAR (isAdd : Bool) (ds : List String) (p : NodeProps) : List String :=
+  if ds.isEmpty then p.default else if isAdd && p.leafList then p.default ++ ds else ds
+
+/-- The default stage of `add` / `replace`: when it reports nothing it did what §7.20.3.2 says. -/
+theorem propsOf_stDefAR (ms : Stmt) (isAdd : Bool) (sd : EData) (n : Entry) (h : (stDefAR ms isAdd sd n).2 = []) :
+    propsOf (stDefAR ms isAdd sd n).1 = { propsOf n with default := defAR isAdd sd.default (propsOf n) } := by
+  have hl : (propsOf n).leafList = n.isLeafList := rfl
+  unfold stDefAR at h ⊢
+  by_cases h1 : sd.default.isEmpty = true
+  · simp [h1, defAR]
+  · cases isAdd with
+    | false =>
+      have hd : defAR false sd.default (propsOf n) = sd.default := by simp [defAR, h1]
+      rw [hd]; simp only [h1, if_false, Bool.false_eq_true]; exact propsOf_setDefault n _
+    | true =>
+      by_cases h2 : n.isLeafList = true
+      · have hd : defAR true sd.default (propsOf n) = (propsOf n).default ++ sd.default := by simp [defAR, h1, hl, h2]
+        rw [hd]; simp only [h1, h2, if_true, if_false, Bool.false_eq_true]
+        exact propsOf_appendDefault n _
+      · by_cases h3 : sd.default.length > 1
+        · simp [h1, h2, h3] at h
+        · by_cases h4 : (!n.d.default.isEmpty) = true
+          · simp [h1, h2, h3, h4] at h
+          · have h5 : sd.default.take 1 = sd.default := List.take_of_length_le (by omega)
+            have hd : defAR true sd.default (propsOf n) = sd.default := by simp [defAR, h1, hl, h2]
+            rw [hd]; simp only [h1, h2, h3, h4, if_true, if_false, Bool.false_eq_true, h5]
+            exact propsOf_setDefault n _
+
+/-- When does the default stage of add / replace report something. -/
+theorem stDefAR_errs (ms : Stmt) (isAdd : Bool) (sd : EData) (n : Entry) :
+    (stDefAR ms isAdd sd n).2 = [] ↔
+      (sd.default.isEmpty = true ∨ isAdd = false ∨ n.isLeafList = true ∨
+        (sd.default.length ≤ 1 ∧ n.d.default.isEmpty = true)) := by
+  unfold stDefAR
+  by_cases h1 : sd.default.isEmpty = true
+  · simp [h1]
+  · cases isAdd with
+    | false => simp [h1]
+    | true =>
+      by_cases h2 : n.isLeafList = true
+      · simp [h1, h2]
+      · by_cases h3 : sd.default.length > 1
+        · simp [h1, h2, h3]; omega
+        · by_cases h4 : (!n.d.default.isEmpty) = true
+          · simp [h1, h2, h3, h4]; intro _; simpa using h4
+          · simp [h1, h2, h3, h4]; simp at h4; exact ⟨by omega, h4⟩
+
+theorem flags_stDefAR (ms : Stmt) (isAdd : Bool) (sd : EData) (n : Entry) :
+    listLike (stDefAR ms isAdd sd n).1 = listLike n ∧ (stDefAR ms isAdd sd n).1.isLeafList = n.isLeafList := by
+  unfold stDefAR
+  repeat' split
+  all_goals first | exact ⟨rfl, rfl⟩ | exact flags_withD n _ rfl rfl rfl
+
+
+theorem flags_stCfg (sd : EData) (n : Entry) : listLike (stCfg sd n) = listLike n ∧ (stCfg sd n).isLeafList = n.isLeafList :=
+  ⟨congrArg NodeProps.listLike (propsOf_stCfg sd n), congrArg NodeProps.leafList (propsOf_stCfg sd n)⟩
+theorem flags_stMand (sd : EData) (n : Entry) : listLike (stMand sd n) = listLike n ∧ (stMand sd n).isLeafList = n.isLeafList :=
+  ⟨congrArg NodeProps.listLike (propsOf_stMand sd n), congrArg NodeProps.leafList (propsOf_stMand sd n)⟩
+theorem flags_stCfgDel (sd : EData) (n : Entry) :
+    listLike (stCfgDel sd n) = listLike n ∧ (stCfgDel sd n).isLeafList = n.isLeafList :=
+  ⟨congrArg NodeProps.listLike (propsOf_stCfgDel sd n), congrArg NodeProps.leafList (propsOf_stCfgDel sd n)⟩
+theorem flags_stMandDel (sd : EData) (n : Entry) :
+    listLike (stMandDel sd n) = listLike n ∧ (stMandDel sd n).isLeafList = n.isLeafList :=
+  ⟨congrArg NodeProps.listLike (propsOf_stMandDel sd n), congrArg NodeProps.leafList (propsOf_stMandDel sd n)⟩
+theorem listLike_setMin (n : Entry) (v : Nat) : listLike (setMin n v) = listLike n :=
+  (flags_withD n _ rfl rfl (by simp)).1
+theorem listLike_setMax (n : Entry) (v : Nat) : listLike (setMax n v) = listLike n :=
+  (flags_withD n _ rfl rfl (by simp)).1
+
+/-- The node before the element-bound stages of add / replace. -/
+def arN3 (ms : Stmt) (isAdd : Bool) (spec node : Entry) : Entry :=
+  stMand spec.d (stDefAR ms isAdd spec.d (stCfg spec.d node)).1
+
+theorem listLike_arN3 (ms : Stmt) (isAdd : Bool) (spec node : Entry) : listLike (arN3 ms isAdd spec node) = listLike node := by
+  unfold arN3
+  rw [(flags_stMand _ _).1, (flags_stDefAR _ _ _ _).1, (flags_stCfg _ _).1]
+
+/-- What add / replace report. -/
+theorem addReplace_errs (ms : Stmt) (isAdd : Bool) (spec node : Entry) :
+    (addReplace ms isAdd spec node).2.2 = [] ↔
+      ((stDefAR ms isAdd spec.d (stCfg spec.d node)).2 = [] ∧
+       ¬ (spec.d.hasMin = true ∧ listLike node = false) ∧ ¬ (spec.d.hasMax = true ∧ listLike node = false)) := by
+  have hn3 := listLike_arN3 ms isAdd spec node
+  unfold arN3 at hn3
+  unfold addReplace
+  simp only []
+  by_cases c1 : (spec.d.hasMin && !listLike (stMand spec.d (stDefAR ms isAdd spec.d (stCfg spec.d node)).1)) = true
+  · rw [if_pos c1]
+    rw [hn3] at c1
+    simp at c1
+    simp [c1]
+  · rw [if_neg c1]
+    by_cases c2 : (spec.d.hasMax && !listLike (if spec.d.hasMin = true then
+        setMin (stMand spec.d (stDefAR ms isAdd spec.d (stCfg spec.d node)).1) (specMin spec.d)
+        else stMand spec.d (stDefAR ms isAdd spec.d (stCfg spec.d node)).1)) = true
+    · rw [if_pos c2]
+      have : listLike node = false ∧ spec.d.hasMax = true := by
+        by_cases hm : spec.d.hasMin = true
+        · simp [hm, listLike_setMin, hn3] at c2; exact ⟨c2.2, c2.1⟩
+        · simp [hm, hn3] at c2; exact ⟨c2.2, c2.1⟩
+      simp [this]
+    · rw [if_neg c2]
+      rw [hn3] at c1
+      have c2' : ¬ (spec.d.hasMax = true ∧ listLike node = false) := by
+        intro hc
+        apply c2
+        by_cases hm : spec.d.hasMin = true
+        · simp [hm, listLike_setMin, hn3, hc]
+        · simp [hm, hn3, hc]
+      have c1' : ¬ (spec.d.hasMin = true ∧ listLike node = false) := by
+        intro hc; apply c1; simp [hc]
+      simp [c1', c2']
+
+
+/-- The properties add / replace leave behind when they report nothing (§7.20.3.2). -/
+def effectAR (isAdd : Bool) (spec : Entry) (p : NodeProps) : NodeProps :=
+  { p with
+    config := (triOpt spec.d.config).or p.config
+    default := defAR isAdd spec.d.default p
+    mandatory := (triOpt spec.d.mandatory).or p.mandatory
+    min := if spec.d.hasMin then specMin spec.d else p.min
+    max := if spec.d.hasMax then maxOpt (specMax spec.d) else p.max
+    units := (strOpt spec.d.units).or p.units
+    type := (spec.d.type.map (·.dump)).or p.type }
+
+theorem addReplace_effect (ms : Stmt) (isAdd : Bool) (spec node : Entry) (h : (addReplace ms isAdd spec node).2.2 = []) :
+    (addReplace ms isAdd spec node).2.1 = false ∧
+    propsOf (addReplace ms isAdd spec node).1 = effectAR isAdd spec (propsOf node) := by
+  obtain ⟨hdef, hmin, hmax⟩ := (addReplace_errs ms isAdd spec node).mp h
+  have hn3 := listLike_arN3 ms isAdd spec node
+  unfold arN3 at hn3
+  unfold addReplace
+  simp only []
+  have c1 : ¬ (spec.d.hasMin && !listLike (stMand spec.d (stDefAR ms isAdd spec.d (stCfg spec.d node)).1)) = true := by
+    rw [hn3]; intro hc; apply hmin; simpa using hc
+  rw [if_neg c1]
+  have c2 : ¬ (spec.d.hasMax && !listLike (if spec.d.hasMin = true then
+        setMin (stMand spec.d (stDefAR ms isAdd spec.d (stCfg spec.d node)).1) (specMin spec.d)
+        else stMand spec.d (stDefAR ms isAdd spec.d (stCfg spec.d node)).1)) = true := by
+    intro hc; apply hmax
+    by_cases hm : spec.d.hasMin = true
+    · simpa [hm, listLike_setMin, hn3] using hc
+    · simpa [hm, hn3] using hc
+  rw [if_neg c2]
+  refine ⟨rfl, ?_⟩
+  simp only []
+  rw [propsOf_stType, propsOf_stUnits]
+  by_cases hM : spec.d.hasMax = true
+  · have hl : listLike node = true := by
+      cases hx : listLike node
+      · exact absurd ⟨hM, hx⟩ hmax
+      · rfl
+    by_cases hm : spec.d.hasMin = true
+    · simp only [hM, hm, if_true]
+      rw [propsOf_setMax _ _ (by rw [listLike_setMin, hn3, hl]), propsOf_setMin _ _ (by rw [hn3, hl]),
+        propsOf_stMand, propsOf_stDefAR _ _ _ _ hdef, propsOf_stCfg]
+      simp [effectAR, defAR, hM, hm]
+    · simp only [hM, hm, if_true, if_false, Bool.false_eq_true]
+      rw [propsOf_setMax _ _ (by rw [hn3, hl]), propsOf_stMand, propsOf_stDefAR _ _ _ _ hdef, propsOf_stCfg]
+      simp [effectAR, defAR, hM, hm]
+  · by_cases hm : spec.d.hasMin = true
+    · have hl : listLike node = true := by
+        cases hx : listLike node
+        · exact absurd ⟨hm, hx⟩ hmin
+        · rfl
+      simp only [hM, hm, if_true, if_false, Bool.false_eq_true]
+      rw [propsOf_setMin _ _ (by rw [hn3, hl]), propsOf_stMand, propsOf_stDefAR _ _ _ _ hdef, propsOf_stCfg]
+      simp [effectAR, defAR, hM, hm]
+    · simp only [hM, hm, if_false, Bool.false_eq_true]
+      rw [propsOf_stMand, propsOf_stDefAR _ _ _ _ hdef, propsOf_stCfg]
+      simp [effectAR, defAR, hM, hm]
+
+
+/-! #### delete -/
+
+/-- §7.20.3.2 for `default` under delete. -/
+def defDel (ds : List String) (p : NodeProps) : List String :=
+  if ds.isEmpty then p.default else if p.leafList then p.default.filter (!ds.contains ·) else []
+
+theorem stDefDel_errs (ms : Stmt) (sd : EData) (n : Entry) :
+    (stDefDel ms sd n).2 = [] ↔
+      (sd.default.isEmpty = true ∨
+        (n.isLeafList = false ∧ n.d.default.isEmpty = false ∧ sd.default.head? = n.d.default.head?)) := by
+  unfold stDefDel
+  by_cases h1 : sd.default.isEmpty = true
+  · simp [h1]
+  · by_cases h2 : n.isLeafList = true
+    · simp [h1, h2]
+    · by_cases h3 : n.d.default.isEmpty = true
+      · simp [h1, h2, h3]
+      · by_cases h4 : sd.default.head? = n.d.default.head?
+        · simp [h1, h2, h3, h4]
+        · simp [h1, h2, h3, h4]
+
+theorem propsOf_stDefDel (ms : Stmt) (sd : EData) (n : Entry) (h : (stDefDel ms sd n).2 = []) :
+    propsOf (stDefDel ms sd n).1 = { propsOf n with default := defDel sd.default (propsOf n) } := by
+  have hl : (propsOf n).leafList = n.isLeafList := rfl
+  rcases (stDefDel_errs ms sd n).mp h with h1 | ⟨h2, h3, h4⟩
+  · simp [stDefDel, h1, defDel]
+  · by_cases h1 : sd.default.isEmpty = true
+    · simp [stDefDel, h1, defDel]
+    · have hd : defDel sd.default (propsOf n) = [] := by simp [defDel, h1, hl, h2]
+      rw [hd]
+      unfold stDefDel
+      simp only [h1, h2, h3, h4, if_false, Bool.false_eq_true, bne_self_eq_false]
+      exact propsOf_setDefault n _
+
+theorem listAttr_stCfgDel (sd : EData) (n : Entry) : (stCfgDel sd n).d.listAttr = n.d.listAttr := by
+  cases n; unfold stCfgDel; split <;> rfl
+theorem listAttr_stMandDel (sd : EData) (n : Entry) : (stMandDel sd n).d.listAttr = n.d.listAttr := by
+  cases n; unfold stMandDel; split <;> rfl
+theorem listAttr_stDefDel (ms : Stmt) (sd : EData) (n : Entry) : (stDefDel ms sd n).1.d.listAttr = n.d.listAttr := by
+  cases n; unfold stDefDel; repeat' split
+  all_goals rfl
+theorem flags_stDefDel (ms : Stmt) (sd : EData) (n : Entry) :
+    listLike (stDefDel ms sd n).1 = listLike n ∧ (stDefDel ms sd n).1.isLeafList = n.isLeafList := by
+  unfold stDefDel
+  repeat' split
+  all_goals first | exact ⟨rfl, rfl⟩ | exact flags_withD n _ rfl rfl rfl
+
+/-- The node before the element-bound stages of delete. -/
+def delN3 (ms : Stmt) (spec node : Entry) : Entry :=
+  stMandDel spec.d (stDefDel ms spec.d (stCfgDel spec.d node)).1
+
+theorem listLike_delN3 (ms : Stmt) (spec node : Entry) : listLike (delN3 ms spec node) = listLike node := by
+  unfold delN3
+  rw [(flags_stMandDel _ _).1, (flags_stDefDel _ _ _).1, (flags_stCfgDel _ _).1]
+
+theorem listAttr_delN3 (ms : Stmt) (spec node : Entry) : (delN3 ms spec node).d.listAttr = node.d.listAttr := by
+  unfold delN3
+  rw [listAttr_stMandDel, listAttr_stDefDel, listAttr_stCfgDel]
+
+theorem nodeMax_setMin (n : Entry) (v : Nat) : nodeMax (setMin n v) = nodeMax n := by
+  cases n with
+  | mk d c i o => cases h : d.listAttr <;> simp [nodeMax, setMin, Entry.withD, Entry.d, h]
+
+/-- `delete` written with the node before the bound stages named. -/
+theorem delete_eq (ms : Stmt) (spec node : Entry) :
+    delete_ ms spec node =
+      (let n3 := delN3 ms spec node
+       let e2 := (stDefDel ms spec.d (stCfgDel spec.d node)).2
+       if spec.d.hasMin && !listLike n3 then (n3, false, e2 ++ [Err.bare "deviate-min-nonlist"]) else
+       let r4 : Entry × List Err :=
+         if spec.d.hasMin then
+           (setMin n3 0, if nodeMin n3 != specMin spec.d then e2 ++ [Err.bare "deviate-delete-min-mismatch"] else e2)
+         else (n3, e2)
+       if spec.d.hasMax && !listLike r4.1 then (r4.1, false, r4.2 ++ [Err.bare "deviate-max-nonlist"]) else
+       let r5 : Entry × List Err :=
+         if spec.d.hasMax then
+           (setMax r4.1 maxU64, if nodeMax r4.1 != specMax spec.d then r4.2 ++ [Err.bare "deviate-delete-max-mismatch"] else r4.2)
+         else r4
+       (r5.1, false, r5.2)) := rfl
+
+/-- What delete reports. -/
+theorem delete_errs (ms : Stmt) (spec node : Entry) :
+    (delete_ ms spec node).2.2 = [] ↔
+      ((stDefDel ms spec.d (stCfgDel spec.d node)).2 = [] ∧
+       (spec.d.hasMin = true → listLike node = true ∧ nodeMin node = specMin spec.d) ∧
+       (spec.d.hasMax = true → listLike node = true ∧ nodeMax node = specMax spec.d)) := by
+  have hl := listLike_delN3 ms spec node
+  have hmin : nodeMin (delN3 ms spec node) = nodeMin node := by simp [nodeMin, listAttr_delN3]
+  have hmax : nodeMax (delN3 ms spec node) = nodeMax node := by simp [nodeMax, listAttr_delN3]
+  rw [delete_eq]
+  simp only []
+  generalize (stDefDel ms spec.d (stCfgDel spec.d node)).2 = e2 at *
+  generalize delN3 ms spec node = n3 at *
+  cases hm : spec.d.hasMin <;> cases hM : spec.d.hasMax <;> cases hll : listLike node <;>
+    simp [hl, hll, hmin, hmax, listLike_setMin, nodeMax_setMin] <;>
+    (try (by_cases a : nodeMin node = specMin spec.d <;> by_cases b : nodeMax node = specMax spec.d <;> simp [a, b]))
+
+
+/-- The properties delete leaves behind when it reports nothing. -/
+def effectDel (spec : Entry) (p : NodeProps) : NodeProps :=
+  { p with
+    config := if (triOpt spec.d.config).isSome then none else p.config
+    default := defDel spec.d.default p
+    mandatory := if (triOpt spec.d.mandatory).isSome then none else p.mandatory
+    min := if spec.d.hasMin then 0 else p.min
+    max := if spec.d.hasMax then none else p.max }
+
+theorem maxOpt_maxU64 : maxOpt maxU64 = none := by simp [maxOpt]
+
+theorem delete_effect (ms : Stmt) (spec node : Entry) (h : (delete_ ms spec node).2.2 = []) :
+    (delete_ ms spec node).2.1 = false ∧ propsOf (delete_ ms spec node).1 = effectDel spec (propsOf node) := by
+  obtain ⟨hdef, hmin, hmax⟩ := (delete_errs ms spec node).mp h
+  have hl := listLike_delN3 ms spec node
+  have hp3 : propsOf (delN3 ms spec node) =
+      { propsOf node with
+        config := if (triOpt spec.d.config).isSome then none else (propsOf node).config
+        default := defDel spec.d.default (propsOf node)
+        mandatory := if (triOpt spec.d.mandatory).isSome then none else (propsOf node).mandatory } := by
+    unfold delN3
+    rw [propsOf_stMandDel, propsOf_stDefDel _ _ _ hdef, propsOf_stCfgDel]
+    simp [defDel]
+  rw [delete_eq]
+  simp only []
+  generalize (stDefDel ms spec.d (stCfgDel spec.d node)).2 = e2 at *
+  generalize delN3 ms spec node = n3 at *
+  cases hm : spec.d.hasMin <;> cases hM : spec.d.hasMax
+  · simp [hp3, effectDel, hm, hM]
+  · have hll := (hmax hM).1
+    simp [hl, hll, effectDel, hm, hM, propsOf_setMax n3 _ (by rw [hl, hll]), hp3, maxOpt_maxU64]
+  · have hll := (hmin hm).1
+    simp [hl, hll, effectDel, hm, hM, propsOf_setMin n3 _ (by rw [hl, hll]), hp3]
+  · have hll := (hmin hm).1
+    simp [hl, hll, effectDel, hm, hM, listLike_setMin, propsOf_setMax (setMin n3 0) _ (by rw [listLike_setMin, hl, hll]),
+      propsOf_setMin n3 _ (by rw [hl, hll]), hp3, maxOpt_maxU64]
+
 end Goyang.Lemmas.Deviate
